@@ -48,6 +48,7 @@ func drawCfg(c *core.RunCtx) cfg {
 	g.wStall = pick(t, 0, 2)
 	g.wPoke = 20
 	g.subCrashPm = pick(t, 0, 1, 2, 4)
+	g.tailCrashPm = pick(t, 0, 0, 30, 150)
 	g.backPressPm = pick(t, 0, 0, 50, 200)
 	g.template = pick(t, 0, 0, 1, 2)
 	// production's raft loop finds several queued messages/ticks per StepNode:
@@ -62,7 +63,7 @@ func drawCfg(c *core.RunCtx) cfg {
 func Run(c *core.RunCtx) {
 	t := c.Tape
 	s := &sim{c: c, t: t, blocked: map[[2]uint64]bool{}, leaderOf: map[uint64]uint64{}, votes: map[[2]uint64]uint64{},
-		applied: map[uint64]entID{}, committed: map[uint64]entID{}, removedIDs: map[uint64]bool{}, maybeRemoved: map[uint64]bool{}}
+		applied: map[uint64]entID{}, committed: map[uint64]entID{}, commitTerm: map[uint64]uint64{}, removedIDs: map[uint64]bool{}, maybeRemoved: map[uint64]bool{}}
 	s.cfg = drawCfg(c)
 	g := s.cfg
 	raft.VerifSeedGlobalRand(int64(t.U32()))
@@ -90,6 +91,16 @@ func Run(c *core.RunCtx) {
 	for ; ev < g.events && !s.dead && len(c.Viol) == 0; ev++ {
 		if tmpl != nil && tmpl.step() {
 			continue
+		}
+		if s.hot != nil {
+			// a replica just crashed while the messages it had sent relied on
+			// something its log had not flushed, and lost it: bring it back at
+			// once and hand it what is already in flight to it (what it promised
+			// in its former life is tested best by whoever asks it next)
+			if s.hotStep() {
+				continue
+			}
+			s.hot = nil
 		}
 		s.event(t.Weighted(w))
 	}
@@ -302,6 +313,12 @@ func (s *sim) deliverOne(faults bool) {
 			k = t.Choose(min(len(s.net), 3))
 		}
 	}
+	s.deliverIdx(k, faults)
+}
+
+// deliverIdx handles the k-th message in flight (delivery, duplication, loss).
+func (s *sim) deliverIdx(k int, faults bool) {
+	t, c := s.t, s.c
 	f := s.net[k]
 	m := f.m
 	dupKeep := false
@@ -448,7 +465,7 @@ func (s *sim) compact(r *replica) {
 		r.st.Compact(ci)
 	}
 	// durable: snapshot file + WAL marker (production: beginSnapshot / SaveSnap)
-	r.dSnap = snap
+	r.saveSnap(snap)
 	s.c.Fault("compact")
 	s.c.Log("compact", "r%d snap=%d compact=%d", r.id, r.cursor, ci)
 }
@@ -562,6 +579,23 @@ func (s *sim) tail() {
 		if aware*2 <= voters && s.poison == "" {
 			s.poison = "promoted-learner-unaware"
 		}
+		// the same from the point of view of a replica that is behind: the
+		// configuration it has applied has enough live voters, but too few of
+		// them know that they are voters
+		for _, r := range s.rs {
+			if member(r) && r.cursor < target && s.poison == "" {
+				v, a := 0, 0
+				for _, id := range r.confState.Nodes {
+					v++
+					if x := s.rs[id-1]; x.up && x.selfVoter {
+						a++
+					}
+				}
+				if a*2 <= v {
+					s.poison = "promoted-learner-unaware"
+				}
+			}
+		}
 		// ground truth for known finding "learner-restart-before-own-add": the
 		// only replicas that are behind are learners of the newest configuration
 		// that restarted from a snapshot older than their own addition; they do
@@ -592,4 +626,31 @@ func (s *sim) tail() {
 	} else {
 		c.Count("tail_rounds", int64(round))
 	}
+}
+
+// hotStep is one step of the directed continuation after a crash that lost a
+// promise (see sim.crash); false when there is nothing left to do.
+func (s *sim) hotStep() bool {
+	r := s.hot
+	if s.hotLeft <= 0 || r.gone {
+		return false
+	}
+	s.hotLeft--
+	if !r.up {
+		s.restart(r)
+		return true
+	}
+	var cand []int
+	for k := range s.net {
+		m := &s.net[k].m
+		if m.To == r.id && !s.blocked[[2]uint64{m.From, m.To}] && s.rs[m.From-1] != r {
+			cand = append(cand, k)
+		}
+	}
+	if len(cand) == 0 {
+		return false
+	}
+	s.c.Probe("in_flight_message_handed_to_replica_that_lost_a_promise")
+	s.deliverIdx(cand[s.t.Choose(len(cand))], false)
+	return true
 }
